@@ -11,6 +11,7 @@ package c13
 import (
 	"fmt"
 	"os"
+	"runtime"
 	"regexp"
 	"strconv"
 	"sync"
@@ -182,6 +183,13 @@ func run(c *core.Ctx) {
 	for k := 0; k < c.N(6, 400); k++ {
 		twoStateCase(c, k, c.Rand("two", k))
 	}
+	ti := 0
+	for _, lim := range []int{1024, 65536} {
+		for k := 0; k < c.N(3, 60); k++ {
+			tightCase(c, ti, c.Rand("tight", ti), lim)
+			ti++
+		}
+	}
 	gi := 0
 	for _, lim := range []int{1024, 65536, 462000} {
 		for k := 0; k < c.N(3, 60); k++ {
@@ -313,6 +321,57 @@ func finish(c *core.Ctx, label string, x *rxRig, sent int, limit int, wit map[st
 	if c.SampleN() < 6 && a.waits > 0 {
 		c.Sample(wit)
 	}
+}
+
+// tightCase: every message is larger than half the limit, so at most one fits
+// and the reader has to wait for the release of its predecessor each time; the
+// handler is fast, and the reader is delayed at the perturbation point between
+// its limit check and its wait, so that the release (and whatever wake-up
+// signal goes with it) falls exactly into that window. A reader that can miss
+// the wake-up parks forever (bounded progress: stalled with everything parked).
+func tightCase(c *core.Ctx, idx int, r *core.Rand, limit int) {
+	c.Journal("C13 tight case %d limit %d", idx, limit)
+	dbg("tight %d limit %d", idx, limit)
+	cfg := protocol.ProtocolConfig{
+		Name: "vstream", ProtocolId: protoID, Mode: protocol.ProtocolModeNodeToNode, Role: protocol.ProtocolRoleServer,
+		MessageFromCborFunc: protorig.FromCbor, StateMap: protorig.StreamMap(limit, 0), InitialState: protorig.StStream,
+	}
+	var waits atomic.Int64
+	pr := r.Fork(9)
+	var mu sync.Mutex
+	protocol.VerifSetPoint(func(name string, _ *protocol.Protocol) {
+		if name != "read.backpressureWait" {
+			return
+		}
+		waits.Add(1)
+		mu.Lock()
+		k := pr.Intn(4)
+		mu.Unlock()
+		switch k {
+		case 0:
+			runtime.Gosched()
+		default:
+			time.Sleep(time.Duration(200*k) * time.Microsecond)
+		}
+	})
+	defer protocol.VerifSetPoint(nil)
+	x := newRx(cfg, nil)
+	count := r.Range(40, 120)
+	var stream []byte
+	for i := 0; i < count; i++ {
+		enc := limit/2 + 1 + r.Intn(limit/2)
+		pl := enc - protorig.EncodedOverhead(enc)
+		m := protorig.Encoded(0, make([]byte, pl))
+		for len(m) > limit {
+			pl--
+			m = protorig.Encoded(0, make([]byte, pl))
+		}
+		stream = append(stream, m...)
+	}
+	go x.ca.Write(segmentize(stream, protoID, false, r.Fork(2)))
+	wit := map[string]any{"case": idx, "seed": c.Seed, "limit": limit, "messages": count, "bytes": len(stream), "scenario": "tight"}
+	finish(c, "tight", x, count, limit, wit)
+	c.Count("backpressure_wait_iterations", int(waits.Load()))
 }
 
 func (a *account) admitCount() int {
